@@ -556,6 +556,13 @@ def gen_shift_world(rng: random.Random, n_steps: int, dt: Optional[int] = None) 
             sid = f"end{k}"
             sched.append((sid, _hms(on_grid(0)), _hms(on_grid(14 + 5 * k))))
             vehicles.append({"id": f"he{k+1}", "lat": c1[0], "lon": c1[1], "mech": "leaf_50", "soc": 0.9, "schedule": sid, "home_base": "b1"})
+        # two of them live eight kilometres out, have no plug at home and are low on charge (just above the matching range):
+        # when their shift ends they have to plan a charging stop - possibly with a passenger still on board
+        c_far = world.at(8000, 0)
+        bases.append({"id": "b_far", "lat": c_far[0], "lon": c_far[1], "station": None, "stalls": 4})
+        for v in vehicles:
+            if v["id"] in ("he3", "he5"):
+                v.update({"home_base": "b_far", "soc": rng.choice([0.066, 0.072])})
         for k in range(min(50, n_steps - 2)):
             o = world.at(500 + rng.uniform(-900, 900), 300 + rng.uniform(-900, 900))
             requests.append({"id": f"b{k+1:03d}", "o": o, "d": c1, "dep": start + dt * k + rng.randrange(0, dt), "pax": 1, "fleet": None})
